@@ -1,7 +1,7 @@
 """C10 — the staged move picker yields every legal move exactly once: necessary structural clauses
 C10-SRC, C10-DEDUP, C10-STAGE, C10-LOUD (DESIGN.md §3)."""
 from facts import (norm, show, walk, strip_refs, deep_strip, is_call_to, callee_name, find_calls, guard_conditions,
-                   cmp_op, option_guard)
+                   cmp_op, option_guard, switch_edge_conds)
 
 EXPLANATION = (
     "Decides necessary structural clauses of C10, not the index arithmetic of the segments: (SRC) the picker's move "
@@ -365,7 +365,49 @@ def rule_stage(fx, rep, nxt):
             ok = False
             rep.violation("C10-STAGE", f"C10-STAGE/{cur}->{v}", f"MovePicker::next line {line}: while in stage {cur} the stage is set to {v}, which does not come later: a stage can be re-entered and moves yielded again",
                           {"fn": nxt.name, "file": nxt.file, "line": line})
-    rep.rule("C10-STAGE", n, 12, ok, "stage assignments move forward")
+    # parked moves are revisited: the losing captures set aside during the capture stage (positions from `first_bad_capture`) are
+    # yielded by the BadCaptures stage, so no call of next() may end with the stage set beyond BadCaptures, from a stage before
+    # it, while `first_bad_capture` is Some. For each such skipping assignment that is not itself under the `None` test: with the
+    # `None` edges of the tests on `first_bad_capture` removed, no return may be reachable from it without passing an assignment
+    # of BadCaptures (seed C10-6b: the rewind placed after the counter-move scan, which returns from inside its loop)
+    if "BadCaptures" in order:
+        park = None
+        for f in fx.adt("move_picker::MovePicker")["variants"][0]["fields"]:
+            if "bad" in f["name"] and "Option" in f["ty"]:
+                park = f["name"]
+        to_bad = [bb for (bb, v, line) in asg if v == "BadCaptures"]
+        none_edges = []
+        if park:
+            for i in sorted(nxt.live_blocks()):
+                if nxt.blocks[i]["term"]["k"] != "switch":
+                    continue
+                for (tg, e, pol, v) in switch_edge_conds(nxt, i):
+                    og = option_guard(e, pol)
+                    if og is not None and og[1] is False and self_field(og[0], park):
+                        none_edges.append((i, tg))
+        for (bb, v, line) in asg:
+            cur = None
+            under_none = False
+            for (e, pol, w) in guard_conditions(nxt, bb, expand_named=True):
+                g = stage_guard(nxt, e, pol)
+                if g:
+                    cur = g
+                og = option_guard(e, pol)
+                if park and og is not None and og[1] is False and self_field(og[0], park):
+                    under_none = True
+            if not (park and cur in order and v in order and order[cur] < order["BadCaptures"] < order[v]):
+                continue
+            n += 1
+            good = under_none
+            if not good:
+                r = nxt.reachable(bb, removed_edges=none_edges, removed_blocks=[x for x in to_bad if x != bb])
+                good = not any(x in r for x in nxt.return_blocks())
+            rep.obligation(good)
+            if not good:
+                ok = False
+                rep.violation("C10-STAGE", f"C10-STAGE/skip-parked/{cur}->{v}", f"MovePicker::next line {line}: in stage {cur} the stage is set to {v} while `{park}` may be Some, and the function can return before the stage is set to BadCaptures: the losing captures (and the queen promotion push) parked during the capture stage are never yielded",
+                              {"fn": nxt.name, "file": nxt.file, "line": line})
+    rep.rule("C10-STAGE", n, 12, ok, "stage assignments move forward; parked moves are revisited")
 
 
 def rule_loud(fx, rep, nxt):
@@ -432,6 +474,11 @@ def rule_loud(fx, rep, nxt):
 
 M = "src/engine/search/move_picker.rs"
 MUTANTS = [
+    {"name": "rewind to the parked captures placed after the counter-move scan (seed C10-6b)", "expect": "C10-STAGE/skip-parked",
+     "edits": [(M, "            match self.first_bad_capture {\n                // If we didn't see any bad captures before, we can skip straight to the end\n                None => self.stage = ScoreQuiets,\n\n                // If we saw any bad captures, go back and try those too\n                Some(first_bad_capture_idx) => {\n                    self.idx = first_bad_capture_idx;\n                    self.stage = BadCaptures;\n                }\n            }\n", "            self.stage = ScoreQuiets;\n"),
+               (M, "        if self.stage == BadCaptures {", "        if self.stage == ScoreQuiets {\n            if let Some(first_bad_capture_idx) = self.first_bad_capture.take() {\n                self.idx = first_bad_capture_idx;\n                self.stage = BadCaptures;\n            }\n        }\n\n        if self.stage == BadCaptures {")]},
+    {"name": "benign: stage set to ScoreQuiets, then rewound if anything is parked, before the counter-move scan", "benign": True,
+     "edits": [(M, "            match self.first_bad_capture {\n                // If we didn't see any bad captures before, we can skip straight to the end\n                None => self.stage = ScoreQuiets,\n\n                // If we saw any bad captures, go back and try those too\n                Some(first_bad_capture_idx) => {\n                    self.idx = first_bad_capture_idx;\n                    self.stage = BadCaptures;\n                }\n            }\n", "            self.stage = ScoreQuiets;\n            if let Some(first_bad_capture_idx) = self.first_bad_capture {\n                self.idx = first_bad_capture_idx;\n                self.stage = BadCaptures;\n            }\n")]},
     {"name": "bad-captures stage bounded by the moving quiet boundary (seed C10-4a)", "expect": "C10-SEGMENTS",
      "edits": [(M, "            if let Some((mv, _)) = self.next_best_move(self.captures_end) {", "            if let Some((mv, _)) = self.next_best_move(self.first_quiet) {")]},
     {"name": "capture generator emits the knight instead of the queen promotion push (shape of seed C10-2)", "expect": "C10-LOUDSET",
